@@ -12,6 +12,7 @@ Values
 A function summary is {"ret": value, "self": value-after-assignment-to-*self or None}.  Parameters are named
 $1, $2 ... (position, without self), fields of self by their bare name, payload bindings of matched variants
 $v1, $v2 ...: reference tables never mention a code-internal identifier."""
+import re
 from fractions import Fraction
 
 from . import hirq
@@ -23,7 +24,7 @@ ATOM_METHODS = {
     "to_degrees", "atan2", "rem_euclid", "div_euclid", "clamp", "mul_add", "trunc", "fract", "ln", "exp", "log10", "log2", "is_nan",
 }
 COMMUTATIVE = {"max", "min", "hypot", "and", "or", "xor", "eq", "ne"}
-TRANSPARENT = {"clone", "to_owned", "into", "copied", "cloned", "borrow", "as_ref", "deref", "unwrap_or_default", "as_slice", "into_iter", "iter"}
+TRANSPARENT = {"clone", "to_owned", "into", "copied", "cloned", "borrow", "as_ref", "as_deref", "as_mut", "deref", "unwrap_or_default", "as_slice", "into_iter", "iter"}
 
 
 _MISSING = object()
@@ -73,7 +74,12 @@ def canon(v):
     return "?"
 
 
+_BOOL_ATOM = re.compile(r"^(eq|ne|lt|le|gt|ge|and|or|not)\(")
+
+
 def atom(name, args):
+    if name == "ite" and len(args) == 3 and is_form(args[0]) and len(args[0]) == 1 and ONE not in args[0] and list(args[0].values())[0] == 1 and _BOOL_ATOM.match(list(args[0])[0]) and args[1] == {ONE: Fraction(1)} and args[2] in ({}, {ONE: Fraction(0)}):
+        return args[0]  # `if c { 1. } else { 0. }` is the number a comparison already stands for (c as i32 as f32)
     strs = [canon(a) for a in args]
     if any(s == "?" for s in strs):
         return None
@@ -200,7 +206,7 @@ def _is_err(v):
 
 
 class Evaluator:
-    def __init__(self, prog, inline_prefixes=("svgdx::", "<svgdx::"), max_depth=4, opaque=(), presets=None, type_alias=None, watch=(), name_case=None, transparent=(), iflet=None, absent=(), present=None, script=None, numbered=(), unroll=0, keep_early_none=False):
+    def __init__(self, prog, inline_prefixes=("svgdx::", "<svgdx::"), max_depth=4, opaque=(), presets=None, type_alias=None, watch=(), name_case=None, transparent=(), iflet=None, absent=(), present=None, script=None, numbered=(), unroll=0, keep_early_none=False, attr_values=None):
         self.prog = prog
         self.keep_early_none = keep_early_none  # an undecided early `return None` is an alternative result, not a guard
         self.script = script or {}  # method -> {"tick": method, "values": [...]}: the value returned depends on how often `tick` was called
@@ -216,6 +222,7 @@ class Evaluator:
         self.present = set(present) if present is not None else None  # if given: exactly these attributes exist
         self.absent = set(absent)  # attribute names assumed absent (get_attr gives None); all others are assumed present
         self.iflet = iflet  # "then" / "else": branch taken by every `if let` whose scrutinee the domain cannot decide
+        self.attr_values = dict(attr_values or {})  # attribute name -> literal value assumed for get / pop
         self.name_case = name_case  # element name assumed for matches over `self.name.as_str()`
         self.transparent = set(transparent)  # local functions that return their (single) argument unchanged for our purposes (fstr)
         self.inline_prefixes = inline_prefixes
@@ -292,6 +299,7 @@ class Evaluator:
 
     def _match_pat(self, pat, val, env):
         """does `val` match `pat`?  True / False when decidable (binding the pattern's variables), None otherwise"""
+        pat = _positional(pat)
         p = pat.get("p")
         if p == "wild":
             return True
@@ -352,6 +360,8 @@ class Evaluator:
             lit = pat.get("lit")
             if known and val[0] == "str" and isinstance(lit, dict) and "str" in lit:
                 return val[1] == lit["str"]
+            if known and val[0] == "bool" and isinstance(lit, dict) and isinstance(lit.get("bool"), bool):
+                return val[1] == lit["bool"]
             return None
         return None
 
@@ -600,8 +610,16 @@ class Evaluator:
         if k == "Continue":
             raise _Continue()
         if k == "Loop":
-            if self.unroll:
-                for _ in range(self.unroll):
+            bound = self.unroll
+            if n.get("src") == "ForLoop":
+                # `for pat in <known list>`: the desugared `match next(&mut iter)` pops the list; run it to the end
+                it = self._for_iter_local(n)
+                lst = env.get(it) if it else None
+                if isinstance(lst, tuple) and lst and lst[0] == "tup" and len(lst[1]) <= 64:
+                    bound = max(bound or 0, len(lst[1]) + 1)
+                    st.setdefault("for_iters", set()).add(it)
+            if bound:
+                for _ in range(bound):
                     try:
                         self.eval(n["body"], env, st)
                     except _Break as b:
@@ -747,6 +765,12 @@ class Evaluator:
         k = s.get("k")
         if k == "Let":
             v = self.eval(s["init"], env, st) if isinstance(s.get("init"), dict) else None
+            if isinstance(s.get("els"), dict):
+                # let PAT = init else { diverge }: a definite mismatch runs the else block; otherwise the pattern holds
+                m = self._match_pat(s["pat"], v, env)
+                if m is False:
+                    self.eval(s["els"], env, st)
+                return None
             self._bind(s["pat"], v, env)
             return None
         if k == "Assign":
@@ -939,6 +963,8 @@ class Evaluator:
             # reading an attribute: the value is the symbol @name (the attribute is assumed present unless listed absent)
             if args[0][1] in self.absent or (self.present is not None and args[0][1] not in self.present):
                 return ("none",)
+            if args[0][1] in self.attr_values:
+                return ("some", ("str", self.attr_values[args[0][1]]))
             return ("some", ("obj", "@" + args[0][1].replace("-", "_")))
         if name == "contains_key" and len(args) == 1 and args[0] is not None and not is_form(args[0]) and args[0][0] == "str" and ("AttrMap" in rty or "HashMap<std::string::String, std::string::String" in rty):
             return ("bool", not (args[0][1] in self.absent or (self.present is not None and args[0][1] not in self.present)))
@@ -1048,11 +1074,37 @@ class Evaluator:
         except _Return as r:
             return r.value
 
+    @staticmethod
+    def _for_iter_local(loop):
+        """the local holding the iterator of a desugared `for` loop (loop { match Iterator::next(&mut iter) {..} })"""
+        for m in hirq.exprs(loop["body"], "Match"):
+            sc = m.get("scrut") or {}
+            if sc.get("k") == "Call" and hirq.callee_path(sc).split("::")[-1] == "next" and len(sc.get("args", [])) == 1:
+                a = sc["args"][0]
+                while isinstance(a, dict) and a.get("k") in ("AddrOf", "DropTemps"):
+                    a = a.get("x") or a.get("e")
+                if isinstance(a, dict) and a.get("k") == "Path":
+                    return (a.get("res") or {}).get("local")
+            break
+        return None
+
     def _call(self, n, env, st):
         f = n["f"]
         res = f.get("res") or {}
         path = res.get("path", "")
         last = path.split("::")[-1]
+        if last == "next" and len(n["args"]) == 1 and st.get("for_iters"):
+            a = n["args"][0]
+            while isinstance(a, dict) and a.get("k") in ("AddrOf", "DropTemps"):
+                a = a.get("x") or a.get("e")
+            loc = (a.get("res") or {}).get("local") if isinstance(a, dict) and a.get("k") == "Path" else None
+            if loc in st["for_iters"]:
+                lst = env.get(loc)
+                if isinstance(lst, tuple) and lst and lst[0] == "tup":
+                    if not lst[1]:
+                        return ("none",)
+                    env[loc] = ("tup", list(lst[1][1:]))
+                    return ("some", lst[1][0])
         args = [self.eval(a, env, st) for a in n["args"]]
         if f.get("k") == "Path" and res.get("local") is not None:
             cv = env.get(res["local"])
@@ -1063,6 +1115,8 @@ class Evaluator:
         if last in self.numbered:
             self.counters[last] = self.counters.get(last, 0) + 1
             return atom(f"{last}{self.counters[last]}", [])
+        if last in ("into_iter", "iter") and len(args) == 1 and isinstance(args[0], tuple) and args[0] and args[0][0] == "tup":
+            return args[0]  # IntoIterator::into_iter(<known list>) in a desugared `for`
         if last in self.transparent and len(args) == 1:
             a0 = args[0]
             if a0 is not None and not is_form(a0) and a0[0] == "obj" and _scalar_ty(_ok_ty(n.get("ty"))):
@@ -1122,7 +1176,18 @@ def _is_name_scrut(n):
     return n.get("k") == "Field" and n.get("name") == "name" and n["x"].get("k") == "Path" and (n["x"].get("res") or {}).get("local") is not None
 
 
+def _positional(pat):
+    """a struct pattern over positional fields (the compiler's own `Some { 0: p }` in desugared loops) as a tuple-struct pattern"""
+    if pat.get("p") == "struct" and "pats" not in pat and pat.get("fields") is not None and all(str(f.get("name", "")).isdigit() for f in pat["fields"]):
+        q = dict(pat)
+        q["p"] = "tstruct" if pat["fields"] else "path"
+        q["pats"] = [f["pat"] for f in sorted(pat["fields"], key=lambda f: int(f["name"]))]
+        return q
+    return pat
+
+
 def _alts(pat):
+    pat = _positional(pat)
     if pat.get("p") == "or":
         out = []
         for q in pat["pats"]:
